@@ -222,8 +222,12 @@ def step (d : DState) (line : String) : DState × List String :=
     let cs := natsOf cs
     ({ d with leafIdxT := (List.range n.toNat!).map fun i => encode d.D (d.H - 1) ((cs.drop (i * d.D)).take d.D) }, [])
   | "buildtsm" :: ts =>
-    let bs := kv ts "bs" 1; let mode := kv ts "mode" 0 == 1
-    ({ d with treeS := Tree.build d.D d.H bs mode d.leafIdxS, treeT := Tree.build d.D d.H bs mode d.leafIdxT, st := {} }, [])
+    let auto := kv ts "auto" 0 == 1
+    -- no block size given: TbfBlockSizeFinder::EstimateTsm on both particle sets together
+    let bs := if auto then autoBlockSize (d.leafIdxS ++ d.leafIdxT) (kv ts "threads" 1) else kv ts "bs" 1
+    let mode := kv ts "mode" 0 == 1
+    ({ d with treeS := Tree.build d.D d.H bs mode d.leafIdxS, treeT := Tree.build d.D d.H bs mode d.leafIdxT, st := {} },
+      if auto then [s!"B {bs} {bs}"] else [])
   | ["dump", "tsmstructure"] =>
     (d, (dumpStructure d.treeS).map ("s" ++ ·) ++ (dumpStructure d.treeT).map ("t" ++ ·))
   | ["dump", "tsmvalues"] =>
@@ -318,7 +322,11 @@ def step (d : DState) (line : String) : DState × List String :=
       let zeros : Array (List Int) := Array.replicate f.input.length (List.replicate f.nRhs (0 : Int))
       let f' : FState := { f with stored := stored, rhs := zeros, bs := kv ts "bs" 1, mode := kv ts "mode" 0 == 1 }
       ({ d with tree := t, st := {}, f := f' }, []) else
-    if kv ts "auto" 0 == 1 then ({ d with skip := true }, []) else
+    if kv ts "auto" 0 == 1 then
+      -- no block size given: TbfBlockSizeFinder::Estimate (TBFMM_BLOCK_SIZE, else distinct leaves / (2 x threads), at least 1)
+      let bs := if ts.any (·.startsWith "env=") then kv ts "env" 1 else autoBlockSize d.leafIdx (kv ts "threads" 1)
+      let t := Tree.build d.D d.H bs (kv ts "mode" 0 == 1) d.leafIdx
+      ({ d with tree := t, st := {}, skip := false }, [s!"B {bs}"]) else
     let t := Tree.build d.D d.H (kv ts "bs" 1) (kv ts "mode" 0 == 1) d.leafIdx
     ({ d with tree := t, st := {}, skip := false }, [])
   | ["dump", "leaves"] =>
@@ -328,6 +336,19 @@ def step (d : DState) (line : String) : DState × List String :=
     let ps := (List.range d.f.stored.size).map fun p =>
       s!"P {p} {leafOf p} " ++ " ".intercalate ((d.f.stored.getD p []).map hexOf)
     (d, lf ++ ps)
+  | "dump" :: "tsmleaves" :: ts =>
+    -- the same particles as both sets of a target/source tree: each side stores what a tree of its own would
+    if !d.f.active || d.f.nRhs == 0 then (d, []) else
+    let f := d.f
+    let leafIdx := f.input.map fun bits => f.leafIdxOf d.D d.H f.real64 bits
+    let t := Tree.build d.D d.H (kv ts "bs" 1) (kv ts "mode" 0 == 1) leafIdx
+    let lf := t.pgroups.zipIdx.flatMap fun (g, gi) => g.map fun l =>
+      s!"LF {gi} {l.idx} {joinNat (decode d.D (d.H - 1) l.idx)} : {joinNat (sortNat l.parts)}"
+    let leafOf := fun p => ((t.stored.find? (·.2 == p)).getD (0, 0)).1
+    let stored := f.input.map fun bits => bits.map (realToData f.real64 f.data64)
+    let ps := (List.range stored.length).map fun p =>
+      s!"P {p} {leafOf p} " ++ " ".intercalate ((stored.getD p []).map hexOf)
+    (d, (lf ++ ps).map ("s" ++ ·) ++ (lf ++ ps).map ("t" ++ ·))
   | ["dump", "groups"] =>
     (d, (List.range d.tree.H).flatMap fun l =>
       (d.tree.level l).zipIdx.map fun (g, gi) => s!"S G {l} {gi} {firstOf g} {lastOf g} {g.length} : {joinNat g}")
@@ -355,6 +376,9 @@ def step (d : DState) (line : String) : DState × List String :=
     ({ d with f := { d.f with stored := d.f.stored.setIfInBounds p (nb ++ old.drop nb.length) } }, [])
   | ["rebuild"] =>
     -- TbfTree::rebuild: gather data and results by original index, rebuild from the stored positions, scatter the results back
+    if !d.f.active then
+      -- cell-centre families: nothing moved, so the rebuilt tree is the tree; expansions are reset, results kept
+      ({ d with st := { rhs := d.st.rhs } }, []) else
     let f := d.f
     let leafIdx := f.stored.toList.map fun bits => f.leafIdxOf d.D d.H f.data64 bits
     let t := Tree.build d.D d.H f.bs f.mode leafIdx
